@@ -28,6 +28,11 @@ def catalogue(tier: str):
          {'y': 'echo("y", "%(point)s", succeed=True):PT3S'}),
         ('two-tasks-share', {'P1': '@x => a\n@x => b'}, 1,
          {'x': 'echo("x", succeed=True):PT5S'}),
+        # a templated signature that is nevertheless the same for every
+        # cycle, with the second cycle still runahead-limited when the
+        # call succeeds
+        ('templated-shared-ra0', {'P1': '@x => a'}, 2,
+         {'x': 'echo("%(workflow)s", succeed=True):PT5S'}),
     ]
     if tier == 'thorough':
         rows += [
@@ -39,8 +44,11 @@ def catalogue(tier: str):
         ]
     out = []
     for name, graph, fcp, xt in rows:
-        out.append({'name': name, 'icp': 1, 'fcp': fcp, 'graph': graph,
-                    'sections': [], 'tasks': {}, 'xtriggers': xt})
+        sp = {'name': name, 'icp': 1, 'fcp': fcp, 'graph': graph,
+              'sections': [], 'tasks': {}, 'xtriggers': xt}
+        if name.endswith('-ra0'):
+            sp['scheduling'] = {'runahead limit': 'P0'}
+        out.append(sp)
     return out
 
 
